@@ -523,10 +523,31 @@ func (env *rcEnv) finish() {
 // wrong on the wire (a call id used twice, ...). This is the only way to meet windows of a few instructions between two
 // senders (e.g. in the allocation of call ids) that no hook sits in.
 func rcStress(callers, per int) (wrong []string, wire []string) {
+	return rcStressWith(callers, per, nil, false)
+}
+
+// rcStressWith: with a compression codec and / or Puts (requests that carry a cellblock): the server checks that the
+// (decompressed) cellblock of every request holds exactly the cell of the request's own row.
+func rcStressWith(callers, per int, codec compression.Codec, puts bool) (wrong []string, wire []string) {
 	var envp atomic.Pointer[rcEnv]
-	env := newRCEnv(rcOpts{queueSize: 1, readTimeout: 30 * time.Second, bind: func(e *rcEnv) { envp.Store(e) },
+	var pmu sync.Mutex
+	var cbProblems []string
+	env := newRCEnv(rcOpts{queueSize: 1, readTimeout: 30 * time.Second, codec: codec, bind: func(e *rcEnv) { envp.Store(e) },
 		auto: func(e *rcEnv, req *verifsim.Request) {
 			tags := rcTags(req)
+			if m, ok := req.Param.(*pb.MutateRequest); ok {
+				kvs, err := verifsim.DecodeKVs(req.CellBlock)
+				row := string(m.GetMutation().GetRow())
+				if err != nil || len(kvs) != 1 || string(kvs[0].Row) != row || string(kvs[0].Value) != "v-"+row {
+					pmu.Lock()
+					if len(cbProblems) < 5 {
+						cbProblems = append(cbProblems, fmt.Sprintf("the cellblock of the put for row %q decodes to %v (error %v)", row, kvs, err))
+					}
+					pmu.Unlock()
+				}
+				e.sc.Send(verifsim.Response{CallID: req.CallID, Msg: &pb.MutateResponse{Processed: proto.Bool(true)}})
+				return
+			}
 			var cb []byte
 			res := verifsim.ResultMsg(cellsFor(tags[0], 1), true, &cb)
 			e.sc.Send(verifsim.Response{CallID: req.CallID, Msg: &pb.GetResponse{Result: res}, CellBlock: cb})
@@ -539,13 +560,19 @@ func rcStress(callers, per int) (wrong []string, wire []string) {
 			defer wg.Done()
 			for i := 0; i < per; i++ {
 				row := fmt.Sprintf("s%02d-%06d", g, i)
-				call, _ := hrpc.NewGet(context.Background(), []byte("t"), []byte(row), hrpc.SkipBatch())
+				var call hrpc.Call
+				if puts && (i+g)%2 == 0 {
+					call, _ = hrpc.NewPut(context.Background(), []byte("t"), []byte(row), map[string]map[string][]byte{"f": {"q": []byte("v-" + row)}}, hrpc.SkipBatch())
+				} else {
+					call, _ = hrpc.NewGet(context.Background(), []byte("t"), []byte(row), hrpc.SkipBatch())
+				}
 				call.SetRegion(env.reg)
 				env.c.QueueRPC(call)
 				select {
 				case r := <-call.ResultChan():
 					got, n := rcResultTag(r)
-					if r.Error != nil || got != row || n != 1 {
+					_, isPut := call.(*hrpc.Mutate)
+					if r.Error != nil || (!isPut && (got != row || n != 1)) {
 						mu.Lock()
 						if len(wrong) < 5 {
 							wrong = append(wrong, fmt.Sprintf("caller %d asked for %q and was given row %q (%d cells, error %v)", g, row, got, n, r.Error))
@@ -563,7 +590,7 @@ func rcStress(callers, per int) (wrong []string, wire []string) {
 		}()
 	}
 	wg.Wait()
-	wire = env.sc.GetProblems()
+	wire = append(env.sc.GetProblems(), cbProblems...)
 	env.c.Close()
 	env.srv.Close()
 	close(env.stop)
